@@ -210,6 +210,16 @@ def main(argv):
             kf_report.append({"id": k["id"], "case": k["case"], "state": "reproduces" if still else "no longer reproduces", "observed": v})
             if still:
                 known_lines.append(f"KNOWN-FINDING: property={pid} {k['id']}/{k['case']} {k['what']}")
+    if any(k.get("kind") == "k11" for k in known):
+        kr11 = stage_results.get("k11") or corr_k10.k11(ctx)
+        for k in known:
+            if k.get("kind") != "k11":
+                continue
+            v = (kr11.get("witness") or {}).get(k["case"])
+            still = bool(v and v.get("reproduces"))
+            kf_report.append({"id": k["id"], "case": k["case"], "state": "reproduces" if still else "no longer reproduces", "observed": v})
+            if still:
+                known_lines.append(f"KNOWN-FINDING: property={pid} {k['id']}/{k['case']} {k['what']}")
     for k in known:
         if k.get("kind") == "k2":
             g = stage_results.get("k2", {}).get("growth_witness", "")
